@@ -45,6 +45,20 @@ Hardening pass 2 (HARDENING2.md classes E, F):
   F  vp/foreign.py (shifted matrix-DFT / chirp-Z propagations, render_synthetic_surface at dx = 1, 0.37, 12.5, in-place edits of the
      vectors forward_ft_unit / make_xy_grid / fftrange handed out, Interferogram.latcal / recenter / pad, precision 32) runs on the same
      axis lengths before one enumerated map in four, half of the form shapes, one history in six and one synthesis in five.
+
+Hardening pass 3 (HARDENING3.md classes G, H, I):
+  G  `scale_laws`: the same map in other units.  dx -> K dx for K in {1e-9, 1e-6, 1e-3, 1e3, 1e6, 1e7, 1e9} with every band edge rescaled
+     (frequencies / K, periods * K) selects exactly the same frequency samples: PSD = K^2 * reference on axes / K, every band-limited RMS
+     (function: frequency and period form; Interferogram method) unchanged, adjacent bands still add in quadrature and a band that contains
+     no frequency sample has no power; heights * s for s in {1e-12 .. 1e12}: PSD * s^2, band-limited RMS * s.  The ORDINARY monitors (psd()
+     contract, band laws through function and method, tone bins) also run on maps whose dx is 3.7e-10 .. 1.25e10.  `synth_units`: the same
+     surface described with size * K (model rescaled) and the same random state is the same surface on coordinates * K; `synth_special`:
+     requested RMS 1e-300, 1e-12, 1e12, 1e150 (RMS computed without under / overflow) and homogeneity in the requested RMS.
+  H  `synth_special`: requested RMS exactly 0 (python int / float, numpy float64): every valid sample must be exactly 0 and the valid set
+     that of the rms = 1 call, with mask None / array (float, bool) through render_synthetic_surface (keyword and positional) and
+     Interferogram.render_from_psd (mask None / array / the default 'circle' string omitted and explicit).
+  I  prime and awkward FFT sizes >= 64 with wrap-around content through every monitor of one_map and the tone test ((67,67), (64,101),
+     (127,65), (129,74), (5,257), (71,2); thorough up to (257,257), (211,64), (1,127)); synthesis at 67, 101 (thorough 74, 127, 129, 257).
 """
 import contextlib
 
@@ -66,7 +80,9 @@ RULE = ('height maps by class: every pairing of axis lengths from a size list (a
         'samples 3.. both parities x {abc, ab} model x mask class {none, circle-string, circular array, random array}; '
         'argument forms (class E): window-array / height dtype kinds, window names, dx / band-edge / mask / scalar forms on a fixed list of '
         'shapes of every parity class (4x5 .. 40x33, thorough up to 100x7 / 81x80), each against the canonical float64 / python-float call; '
-        'foreign-traffic preludes (class F) on the same axis lengths before a fixed share of the maps / histories / syntheses. A map is '
+        'foreign-traffic preludes (class F) on the same axis lengths before a fixed share of the maps / histories / syntheses; unit / magnitude regimes '
+        '(class G): dx * K and heights * s twins of a map with rescaled band edges, the ordinary laws on maps with dx 3.7e-10 .. 1.25e10, synthesis with size * K; '
+        'special values (class H): requested RMS exactly 0 / 1e-300 / 1e-12 / 1e12 / 1e150 x mask class x form; prime sizes >= 64 (class I). A map is '
         'non-trivial when it is non-constant with >= 2 non-zero samples; distinct = distinct descriptor (workload, shape, dx, window '
         'class, content seed, layout, dtype, precision, parameters / full op list)')
 ASSUMPTIONS = ['"the window actually used" is what prysm.interferogram.make_window returns for the same (signal, dx, window) '
@@ -88,12 +104,17 @@ ASSUMPTIONS = ['"the window actually used" is what prysm.interferogram.make_wind
                'the set of argument forms treated as the same mathematical input was fixed from the current tree (/repo @ faa8443, table in the '
                'module above W_KINDS): list / tuple / complex / float16 windows, list heights, list masks (silently ignored today) and '
                'narrow-integer heights times narrow-integer windows are out of domain; integer windows keep every w^2 inside their own dtype',
-               'render_synthetic_surface is deterministic given numpy.random\'s state (seeded per call, restored afterwards)']
+               'render_synthetic_surface is deterministic given numpy.random\'s state (seeded per call, restored afterwards)',
+               'unit invariance: rescaled band edges sit between the same sample radii (edges keep 1e-6 of the largest radius away from every sample radius, a '
+               'rescaling moves them by 1e-16); tolerances 1e-10 (PSD values), 1e-12 (axes), 1e-9 (band-limited RMS), all relative',
+               'a requested RMS of exactly 0 is in domain (the current tree returns zeros on the valid samples); "exactly that RMS" is then read literally: every '
+               'valid sample is 0; tiny / huge requested RMS are judged with an RMS evaluated after normalising by the largest magnitude (no under / overflow)']
 REQUIRED = ['psd.parseval', 'psd.axes', 'psd.alignment(reference-dft)', 'psd.tone-bins', 'blrms.returns', 'blrms.additivity',
             'blrms.monotone', 'blrms.full-band', 'blrms.period-interface', 'synth.rms',
             'psd.repeat-call', 'blrms.repeat-call', 'history.Interferogram.psd', 'history.Interferogram.bandlimited_rms',
             'history.synth-then-psd', 'precision32.psd', 'precision32.synth',
-            'forms.psd', 'forms.bandlimited_rms', 'forms.synth']
+            'forms.psd', 'forms.bandlimited_rms', 'forms.synth',
+            'scale.psd', 'scale.bandlimited_rms', 'scale.additivity', 'scale.synth', 'synth.special-rms']
 UNREACHABLE = ['numpy 1.x runtime half of the configuration quantifier: only numpy 2.5.3 is installed and nothing can be fetched, so '
                'neither the behaviour of bandlimited_rms on a real numpy 1.x nor the numpy-1.x fallback branch of the proposed '
                'trapz->trapezoid repair is exercised by this check (the fallback was exercised once by hand with numpy.trapezoid '
@@ -888,6 +909,230 @@ def render_positional(ifg, s0, size, samples, rho, kw):
     np.random.seed(s0)
     return ifg.render_synthetic_surface(size, samples, rho, None, ifg.abc_psd, **kw)[2]
 
+# ------------------------------------------------------------------------------------------ classes G / H / I (HARDENING3.md)
+# Established on the current tree (/repo @ c2c1d7f) before anything below was made a law: psd() and bandlimited_rms() hold every law of this
+# module for dx from 1e-10 to 1e10 and heights scaled by 1e-12 .. 1e12 (nothing in them is absolute: the automatic window tests `== 0`);
+# render_synthetic_surface(rms=0) returns a surface that is exactly 0 on its valid samples (NaN on the masked ones) for mask None / array and
+# through render_from_psd (whose default mask 'circle' is a no-op on the current tree); rms = 1e-300 .. 1e150 are honoured to round-off.
+UNIT_K = [1e-9, 1e-6, 1e-3, 1e3, 1e6, 1e7, 1e9]
+HEIGHT_S = [1e-12, 1e-9, 1e-6, 1e6, 1e9, 1e12]
+
+
+def scale_laws(ctx, shape, dx0, wclass, seed):
+    """Class G: the same map in other units.  dx -> K dx with every band edge rescaled (frequencies / K, periods * K) selects exactly the
+    same frequency samples: the band-limited RMS is unchanged, PSD values scale by K^2 and the axes by 1/K; heights -> s * heights scale
+    the PSD by s^2 and every band-limited RMS by s.  Adjacent bands still add in quadrature and a band that contains no frequency sample
+    carries no power, at every scale."""
+    from prysm import interferogram as ifg
+    n0, n1 = shape
+    rng = np.random.default_rng([int(seed), 23, n0, n1])
+    z = lowpass_map(shape, rng)
+    if wclass == 'auto-circ':
+        i, j = np.indices(shape)
+        z = np.where(np.hypot(i - n0 // 2, j - n1 // 2) > min(n0, n1) / 2 - 1, 0.0, z)
+    wc = 'auto' if wclass.startswith('auto') else wclass
+    warg = window_arg(wc, shape, rng)
+    desc = {'wl': 'scale', 'shape': list(shape), 'dx': dx0, 'window': wclass, 'seed': int(seed), 'class': f'scale:{shape_label(shape)}|{wclass}'}
+    ctx.case(desc, nontrivial=nontrivial(z))
+    CUR['desc'], CUR['wclass'] = desc, wc
+    try:
+        with quiet():
+            w = np.broadcast_to(np.asarray(ifg.make_window(z, dx0, warg), dtype=float), shape)
+        if not (np.isfinite(w).all() and float((w * w).sum()) > 0):
+            ctx.skip('scale laws: degenerate window for this shape')
+            return
+        with ctx.guard('C13/scale', desc):
+            ux1, uy1, P1 = ifg.psd(z, dx0, window=warg)
+            P1 = np.asarray(P1, dtype=float)
+            r1 = np.hypot(ux1, uy1)
+            rmax = float(r1.max())
+            rs = np.unique(r1.ravel())
+            mids = ((rs[:-1] + rs[1:]) / 2)[np.diff(rs) > 1e-6 * rmax]
+            mids = mids[mids > 1e-6 * rmax]
+            if mids.size < 6:
+                ctx.skip('scale laws: fewer than 6 usable edges between sample radii')
+                return
+            a, b, c = (float(mids[(q * mids.size) // 8]) for q in (1, 4, 7))
+            total = float(P1.sum()) / (n0 * n1 * dx0 ** 2)
+            use_method = wc == 'auto'
+
+            def bands(r, P, K, itf=None):
+                """Every band of the reference set, edges rescaled by the unit factor K, through the function (frequency and period
+                form) and, for the automatic window, the Interferogram method."""
+                out = {}
+                f = lambda **kw: call_blrms(desc, 'function', ifg.bandlimited_rms, r=r, psd=P, **kw)      # noqa: E731
+                out['f:ab'] = f(flow=a / K, fhigh=b / K)
+                out['f:bc'] = f(flow=b / K, fhigh=c / K)
+                out['f:ac'] = f(flow=a / K, fhigh=c / K)
+                out['f:empty'] = f(flow=b * (1 - 1e-7) / K, fhigh=b * (1 + 1e-7) / K)
+                out['p:ab'] = f(wllow=K / b, wlhigh=K / a)
+                out['p:ac'] = f(wllow=K / c, wlhigh=K / a)
+                if itf is not None:
+                    m = lambda **kw: call_blrms(desc, 'method', itf.bandlimited_rms, **kw)                   # noqa: E731
+                    out['m:ab'] = m(flow=a / K, fhigh=b / K)
+                    out['m:bc'] = m(wllow=K / c, wlhigh=K / b)
+                return out
+
+            ref = bands(r1, P1, 1.0, ifg.Interferogram(z.copy(), dx=dx0) if use_method else None)
+            want = {k_: ref['f:' + k_.split(':')[1]] for k_ in ref}
+            root = np.sqrt(total)
+
+            def judge_bands(got, s, regime, what):
+                bad = [k_ for k_ in got if not abs(got[k_] - s * want[k_]) <= 1e-9 * s * max(want[k_], 1e-3 * root)]
+                ctx.observe('scale.bandlimited_rms')
+                if bad:
+                    ctx.violation(f'C13/bandlimited_rms/scale:{regime}/not-scale-invariant',
+                                  f'{what}: band-limited RMS of the same frequency samples differs from the reference units in {sorted(bad)} '
+                                  f'(e.g. {bad[0]}: {got[bad[0]]:.12g} vs {s * want[bad[0]]:.12g})', desc, bands=sorted(bad), regime=regime)
+                    return
+                ctx.observe('scale.additivity')
+                if not abs(np.hypot(got['f:ab'], got['f:bc']) - got['f:ac']) <= 1e-9 * max(got['f:ac'], 1e-3 * s * root):
+                    ctx.violation(f'C13/bandlimited_rms/scale:{regime}/not-additive-in-quadrature', f'{what}: adjacent bands do not add in quadrature', desc)
+                if not got['f:empty'] <= 1e-6 * s * root:
+                    ctx.violation(f'C13/bandlimited_rms/scale:{regime}/band-without-samples-has-power', f'{what}: a band that contains no frequency '
+                                  f'sample has RMS {got["f:empty"]:.6g}', desc)
+
+            judge_bands(ref, 1.0, 'reference-units', f'dx={dx0}')
+            for K in UNIT_K:
+                dxK = dx0 * K
+                regime = 'dx-tiny' if K < 1 else 'dx-huge'
+                n_before = nviol(ctx)
+                uxK, uyK, PK = ifg.psd(z, dxK, window=warg)
+                ctx.observe('scale.psd')
+                if nviol(ctx) == n_before:
+                    ok = (np.shape(PK) == P1.shape and float(np.abs(np.asarray(PK, dtype=float) / K ** 2 - P1).max()) <= 1e-10 * float(P1.max())
+                          and float(np.abs(np.asarray(uxK) * K - ux1).max()) <= 1e-12 * rmax and float(np.abs(np.asarray(uyK) * K - uy1).max()) <= 1e-12 * rmax)
+                    if not ok:
+                        ctx.violation(f'C13/psd/scale:{regime}/not-unit-invariant', f'psd(h, {dxK:g}) is not K^2 * psd(h, {dx0:g}) on axes / K (K = {K:g})', desc, K=K)
+                        continue
+                got = bands(np.hypot(uxK, uyK), np.asarray(PK, dtype=float), K, ifg.Interferogram(z.copy(), dx=dxK) if use_method else None)
+                judge_bands(got, 1.0, regime, f'dx={dxK:g} (K={K:g})')
+            for s in HEIGHT_S:
+                regime = 'heights-tiny' if s < 1 else 'heights-huge'
+                n_before = nviol(ctx)
+                uxs, uys, Ps = ifg.psd(z * s, dx0, window=warg)
+                ctx.observe('scale.psd')
+                if nviol(ctx) == n_before and not float(np.abs(np.asarray(Ps, dtype=float) / s ** 2 - P1).max()) <= 1e-10 * float(P1.max()):
+                    ctx.violation(f'C13/psd/scale:{regime}/not-homogeneous', f'psd({s:g} * h) is not {s:g}^2 * psd(h)', desc, s=s)
+                    continue
+                got = bands(r1, np.asarray(Ps, dtype=float), 1.0, ifg.Interferogram(z * s, dx=dx0) if use_method else None)
+                judge_bands(got, s, regime, f'heights scaled by {s:g}')
+    finally:
+        CUR['desc'], CUR['wclass'] = None, '?'
+
+
+def safe_rms(v):
+    """RMS that neither underflows nor overflows (values of magnitude 1e-300 or 1e150)."""
+    v = np.asarray(v, dtype=float)
+    m = float(np.abs(v).max()) if v.size else 0.0
+    if m == 0 or not np.isfinite(m):
+        return m
+    u = v / m
+    return m * float(np.sqrt((u * u).sum() / u.size))
+
+
+SPECIAL_RMS = [('zero', 0), ('zero', 0.0), ('zero', np.float64(0)), ('tiny', 1e-300), ('tiny', 1e-12), ('huge', 1e12), ('huge', 1e150)]
+
+
+def synth_special(ctx, samples, model, seed):
+    """Class H / G for the synthesis: requested RMS exactly 0 (every valid sample must be exactly 0), tiny and huge, with mask None / array
+    / the 'circle' string (Interferogram form), function and Interferogram forms; the surface for rms = s * rho is s times the surface for
+    rho drawn from the same random state."""
+    from prysm import interferogram as ifg
+    rng = np.random.default_rng([int(seed), 29, samples])
+    size = float(10 ** rng.uniform(-1, 2))
+    if model == 'abc':
+        fn, kw = ifg.abc_psd, {'a': float(10 ** rng.uniform(-2, 3)), 'b': float(10 ** rng.uniform(-3, 0)), 'c': float(rng.uniform(1, 4))}
+    else:
+        fn, kw = ifg.ab_psd, {'a': float(10 ** rng.uniform(-2, 3)), 'b': float(rng.uniform(1, 3))}
+    i, j = np.indices((samples, samples))
+    circ = np.hypot(i - samples // 2, j - samples // 2) <= samples / 2
+    rand = rng.random((samples, samples)) > 0.4
+    rand[samples // 2, samples // 2] = True
+    s0 = int(rng.integers(0, 2 ** 31 - 1))
+    forms = [('render_synthetic_surface', 'none', lambda rho: ifg.render_synthetic_surface(size, samples, rms=rho, mask=None, psd_fcn=fn, **kw)[2]),
+             ('render_synthetic_surface', 'none', lambda rho: ifg.render_synthetic_surface(size, samples, rho, psd_fcn=fn, **kw)[2]),
+             ('render_synthetic_surface', 'array', lambda rho: ifg.render_synthetic_surface(size, samples, rms=rho, mask=circ.astype(float), psd_fcn=fn, **kw)[2]),
+             ('render_synthetic_surface', 'array', lambda rho: ifg.render_synthetic_surface(size, samples, rho, rand.copy(), fn, **kw)[2]),
+             ('Interferogram.render_from_psd', 'none', lambda rho: ifg.Interferogram.render_from_psd(size, samples, rms=rho, mask=None, psd_fcn=fn, **kw).data),
+             ('Interferogram.render_from_psd', 'circle-string', lambda rho: ifg.Interferogram.render_from_psd(size, samples, rms=rho, psd_fcn=fn, **kw).data),
+             ('Interferogram.render_from_psd', 'circle-string', lambda rho: ifg.Interferogram.render_from_psd(size, samples, rho, 'circle', fn, **kw).data),
+             ('Interferogram.render_from_psd', 'array', lambda rho: ifg.Interferogram.render_from_psd(size, samples, rms=rho, mask=circ.copy(), psd_fcn=fn, **kw).data)]
+    for fi, (form, mclass, call) in enumerate(forms):
+        desc = {'wl': 'synth-special', 'samples': samples, 'model': model, 'mask': mclass, 'form': form, 'variant': fi, 'size': size, 'psd_kwargs': kw,
+                'seed': int(seed), 'class': f'synth-special:{parity(samples)}|{model}|{mclass}|{form}'}
+        ctx.case(desc)
+        mk = 'none' if mclass in ('none', 'circle-string') else 'array'
+        with ctx.guard(f'C13/{form}', desc):
+            np.random.seed(s0)
+            zref = np.asarray(call(1.0), dtype=float)
+            vref = zref[np.isfinite(zref)]
+            if vref.size == 0 or not abs(safe_rms(vref) - 1.0) <= 1e-10:
+                ctx.skip('synth special: the rms = 1 reference of this form is itself off (judged by the synthesis workload)')
+                continue
+            for regime, rho in SPECIAL_RMS:
+                np.random.seed(s0)
+                z = np.asarray(call(rho))
+                ctx.observe('synth.special-rms')
+                fin = np.isfinite(z)
+                v = z[fin].astype(float)
+                if z.shape != zref.shape or not np.array_equal(fin, np.isfinite(zref)):
+                    ctx.violation(f'C13/synthesis/special:rms={regime}/valid-set-differs/mask={mk}',
+                                  f'{form}(rms={rho!r}) has another set of valid samples than the same call with rms=1', desc, rms=float(rho))
+                    continue
+                if rho == 0:
+                    ok = bool((v == 0).all())
+                    what = f'largest |z| over the {v.size} valid samples is {float(np.abs(v).max()) if v.size else 0:.6g}, requested RMS exactly 0'
+                else:
+                    got = safe_rms(v)
+                    ok = abs(got - float(rho)) <= 1e-10 * float(rho)
+                    what = f'RMS {got:.6g} over the {v.size} valid samples'
+                    # homogeneity: the same random state gives rho times the unit-RMS surface
+                    ok = ok and float(np.abs(v / float(rho) - vref).max()) <= 1e-9 * float(np.abs(vref).max())
+                if not ok:
+                    ctx.violation(f'C13/synthesis/special:rms={regime}/rms-not-as-requested/mask={mk}', f'{form}(rms={rho!r}): {what}', desc, rms=float(rho), form=form)
+
+
+def synth_units(ctx, samples, seed):
+    """Class G for the synthesis: the same surface described in other lateral units (size -> K size; the corner frequency b of the abc model ->
+    b / K; the ab model is a pure power law) drawn from the same random state is the same surface once normalised to the requested RMS,
+    on coordinates K times larger."""
+    from prysm import interferogram as ifg
+    rng = np.random.default_rng([int(seed), 31, samples])
+    size, rho = float(10 ** rng.uniform(0, 2)), float(10 ** rng.uniform(-1, 1))
+    s0 = int(rng.integers(0, 2 ** 31 - 1))
+    for model in ('abc', 'ab'):
+        b = float(10 ** rng.uniform(-2, 0)) if model == 'abc' else float(rng.uniform(1, 3))
+        cc = float(rng.uniform(1.5, 3.5))
+        desc = {'wl': 'synth-units', 'samples': samples, 'model': model, 'size': size, 'rms': rho, 'b': b, 'c': cc, 'seed': int(seed),
+                'class': f'synth-units:{parity(samples)}|{model}'}
+        ctx.case(desc)
+
+        def render(K):
+            np.random.seed(s0)
+            if model == 'abc':
+                return ifg.render_synthetic_surface(size * K, samples, rms=rho, mask=None, psd_fcn=ifg.abc_psd, a=2.0, b=b / K, c=cc)
+            return ifg.render_synthetic_surface(size * K, samples, rms=rho, mask=None, psd_fcn=ifg.ab_psd, a=2.0, b=b)
+
+        with ctx.guard('C13/render_synthetic_surface', desc):
+            x1, y1, z1 = render(1.0)
+            if not abs(safe_rms(z1) - rho) <= 1e-10 * rho:
+                ctx.skip('synth units: the reference surface is itself off (judged by the synthesis workload)')
+                continue
+            for K in UNIT_K:
+                xK, yK, zK = render(K)
+                ctx.observe('scale.synth')
+                regime = 'size-tiny' if K < 1 else 'size-huge'
+                gotr = safe_rms(zK[np.isfinite(zK)]) if np.isfinite(zK).any() else float('nan')
+                if not abs(gotr - rho) <= 1e-10 * rho:
+                    ctx.violation(f'C13/synthesis/scale:{regime}/rms-not-as-requested/mask=none', f'render_synthetic_surface(size={size * K:g}, rms={rho:.6g}) has RMS '
+                                  f'{gotr:.6g}', desc, K=K)
+                elif not (np.shape(zK) == np.shape(z1) and float(np.abs(zK - z1).max()) <= 1e-7 * rho
+                          and float(np.abs(np.asarray(xK) / K - x1).max()) <= 1e-12 * size and float(np.abs(np.asarray(yK) / K - y1).max()) <= 1e-12 * size):
+                    ctx.violation(f'C13/synthesis/scale:{regime}/not-unit-invariant', f'the same surface described with size * {K:g} (model rescaled) and the same random '
+                                  'state is another surface / is on other coordinates', desc, K=K)
+
+
 # ------------------------------------------------------------------------------------------ histories on one Interferogram
 IH_MUT = ['remove_piston', 'remove_tiptilt', 'remove_power', 'latcal', 'strip_latcal', 'pad0', 'fill', 'set-data', 'poke', 'filter',
           'recenter', 'copy', 'crop']
@@ -1111,6 +1356,43 @@ def _run(ctx):
             if ctx.mine(k + rep):
                 synth_forms(ctx, samples, ctx.seed * 11 + k + 1000 * rep)
 
+    # class G (HARDENING3.md): unit / magnitude regimes.  (1) the metamorphic scale laws; (2) the ordinary laws of one_map (psd contract, band
+    # laws through the function and the method, tone bins) on maps whose dx is 1e-9 .. 1e9 times the usual ones
+    gshapes = ctx.pick([(8, 8), (9, 12), (13, 7), (16, 21), (31, 26), (40, 40)],
+                       [(8, 8), (9, 12), (13, 7), (16, 21), (31, 26), (40, 40), (5, 4), (7, 7), (12, 33), (33, 12), (64, 64), (63, 50), (67, 64), (101, 37), (96, 128),
+                        (128, 96), (127, 127), (4, 160)])
+    GW = ['hann', 'auto', 'user', 'auto-circ', 'welch', 'ones']
+    for k, shp in enumerate(gshapes):
+        for rep in range(ctx.pick(1, 12)):
+            if not ctx.mine(k + rep):
+                continue
+            scale_laws(ctx, shp, [1.0, 0.37, 12.5][(k + rep) % 3], GW[(k + rep) % len(GW)], ctx.seed * 13 + 17 * k + rep)
+            for q, K in enumerate(UNIT_K):
+                if K in (1e-3, 1e3) or (ctx.quick and (q + k) % 2):
+                    continue
+                wc = WINDOWS[(k + q + rep) % len(WINDOWS)]
+                one_map(ctx, shp, [1.0, 0.37, 12.5][(k + q) % 3] * K, wc, ctx.seed * 101 + 7 * k + q + 1000 * rep, ['lowpass-zero-dc', 'lowpass'][(k + q) % 2],
+                        layout=LAYOUTS[(k + q) % len(LAYOUTS)])
+                if wc != 'auto' and (q + k) % 3 == 0:
+                    one_map(ctx, shp, [1.0, 0.37, 12.5][(k + q) % 3] * K, 'auto', ctx.seed * 101 + 7 * k + q + 1000 * rep + 1, 'lowpass-circ-zero-dc')
+                if rep == 0 and q % 3 == 0:
+                    tone_test(ctx, shp, 0.37 * K, ctx.seed + k + q)
+
+    # class I: prime and awkward FFT sizes >= 64 (the content of lowpass_map is periodic: it wraps around the border), every window class
+    pshapes = ctx.pick([(67, 67), (64, 101), (127, 65), (129, 74), (5, 257), (71, 2)],
+                       [(67, 67), (64, 101), (127, 65), (129, 74), (5, 257), (257, 6), (71, 2), (101, 101), (65, 65), (74, 67), (127, 129), (257, 257), (131, 97), (3, 127),
+                        (211, 64), (64, 211), (193, 89), (1, 127), (127, 1)])
+    for k, shp in enumerate(pshapes):
+        if not ctx.mine(k):
+            continue
+        for q, wc in enumerate(WINDOWS):
+            if ctx.quick and (q + k) % 2:
+                continue
+            dx = [1.0, 0.37, 12.5][(k + q) % 3]
+            one_map(ctx, shp, dx, wc, ctx.seed * 53 + 11 * k + q, ['lowpass', 'lowpass-zero-dc', 'white'][(k + q) % 3], laws=min(shp) >= 2,
+                    layout=LAYOUTS[(k + q) % len(LAYOUTS)])
+        tone_test(ctx, shp, 0.37, ctx.seed + k)
+
     # class B: histories on one Interferogram
     nh = ctx.share(ctx.pick(500, 40000))
     for q in range(nh):
@@ -1143,6 +1425,19 @@ def _run(ctx):
                     if (k // ctx.nshards) % 3 == 0:      # class C: precision-32 synthesis (and its synth -> psd history) on the same grid first
                         synth(ctx, samples, model, mclass, ctx.seed * 7919 + k, prec=32)
                     synth(ctx, samples, model, mclass, ctx.seed * 7919 + k)
+    # classes H / G for the synthesis: rms exactly 0 / tiny / huge, every mask class and form; other lateral units; prime sample counts (class I)
+    ssamples = ctx.pick([3, 4, 5, 8, 9, 16, 21, 33, 64, 67], list(range(3, 41)) + [64, 65, 67, 74, 101, 127, 128, 129, 257])
+    for k, samples in enumerate(ssamples):
+        for rep in range(ctx.pick(1, 3)):
+            if not ctx.mine(k + rep):
+                continue
+            for model in ('abc', 'ab'):
+                synth_special(ctx, samples, model, ctx.seed * 37 + 3 * k + rep)
+            synth_units(ctx, samples, ctx.seed * 41 + k + 100 * rep)
+    for k, samples in enumerate(ctx.pick([67, 101], [67, 74, 101, 127, 129, 257])):
+        if ctx.mine(k):
+            for q, mclass in enumerate(('none', 'circle-string', 'circle-array', 'random-array')):
+                synth(ctx, samples, ['abc', 'ab'][(k + q) % 2], mclass, ctx.seed * 7919 + 5000 + k + q)
     ctx.note(f'shard{ctx.shard}.float32-roundoff-max(err/scale) [thresholds: axes 1e-4, parseval/alignment/band laws 1e-3, tone leak 1e-3, synth rms 1e-4]',
              {k_: float(f'{v:.3g}') for k_, v in sorted(RO.items())})
 
